@@ -22,6 +22,11 @@ pub struct Rev0 {
 
 pub fn parse_rev0(text: &str) -> Rev0 {
     let mut r = Rev0::default();
+    if text == "\n" {
+        // nothing to offer, an empty word was typed
+        r.echo = Some(String::new());
+        return r;
+    }
     if !text.contains('\t') {
         if let Some(lit) = text.strip_suffix('\n') {
             if !lit.contains("\n\n") && !text.starts_with('\n') {
